@@ -22,6 +22,10 @@ PALETTE = [("int", "int"), ("string", "str"), ("int64", "int"), ("uint8", "int")
            ("int32", "int"), ("uint", "int")]
 
 
+REF_DEFS = {"[]string": "[]string{%s}", "[]int": "[]int{%d}", "map[string]int": 'map[string]int{"k": %d}',
+            "*Inner": "&Inner{N: %d}", "[]*Inner": "[]*Inner{{N: %d}}"}
+
+
 def is_exported(name):
     return name[:1].isupper()
 
@@ -52,6 +56,10 @@ class NewGen:
             if dk and self.rng.random() < opts.get("def", 0.25):
                 self.defk += 1
                 f["def"] = str(200 + self.defk % 50) if dk == "int" else '"d%d"' % self.defk
+            elif opts.get("refdefs") and ty in REF_DEFS and self.rng.random() < opts["refdefs"]:
+                # a default that allocates: every instance must get its own
+                self.defk += 1
+                f["def"] = REF_DEFS[ty] % ((200 + self.defk % 50) if "%d" in REF_DEFS[ty] else ('"d%d"' % self.defk))
             if self.rng.random() < opts.get("tagskip", 0.06):
                 f["tagskip"] = True
             if (f["tagskip"] or name.startswith("_")) and self.rng.random() < 0.95:
@@ -164,6 +172,64 @@ class NewGen:
         self.used = {}
         s = self.struct(name, 0, o, tparams)
         return s
+
+
+def _norm(n):
+    return n.lower().replace("_", "")
+
+
+def companion(rng, s, cid, same_names=True):
+    """Types to be processed BEFORE `s` in the same invocation (multi-type run). Whatever they carry -- type parameters,
+    `new` marks, defaults, accessor restrictions, accessors promoted from an embedded shoot type, fields named like
+    the fields of `s` -- must not reach `s`: the expected behaviour of `s` is that of a run on `s` alone.
+    Returns (struct specs to declare, type names to list first)."""
+    tag = "".join(ch for ch in cid if ch.isalnum())
+
+    def F(name, ty="int", **kw):
+        d = {"k": "f", "name": name, "type": ty, "new": False, "def": None, "tagskip": False}
+        d.update(kw)
+        return d
+    names, seen = [], set()
+    if same_names:
+        for m in s["members"]:
+            if m["k"] == "f" and not m["name"].startswith("_") and not is_exported(m["name"]) and _norm(m["name"]) not in seen:
+                seen.add(_norm(m["name"]))
+                names.append(m["name"])
+    rng.shuffle(names)
+    half = len(names) // 2
+    base = {"name": "Zb" + tag, "tparams": [], "typedoc": None,
+            "members": [F(n, "int") for n in names[:half]] + [F("zq" + tag, "string")]}
+    own = []
+    for j, n in enumerate(names[half:]):
+        kind = rng.randrange(4)
+        own.append(F(n, "int", **({"new": True, "def": "241"} if kind == 0 else {"get": True} if kind == 1
+                                  else {"set": True} if kind == 2 else {"def": "242"})))
+    own.append(F("zk" + tag, "K"))
+    own.append(F("zv" + tag, "V", new=True))
+    comp = {"name": "Zc" + tag, "tparams": [(["K"], "comparable"), (["V"], "any")], "typedoc": None,
+            "members": ([{"k": "e", "ptr": rng.random() < 0.3, "new": False, "pkg": None, "decl": base}] if same_names else []) + own}
+    # (-opt -short names option functions by field only: no field may then occur in two types, promoted ones included)
+    return [comp], ([base["name"]] if same_names else []) + [comp["name"]]
+
+
+def getset_neutral(s):
+    """conservative: adding -getset to a run on `s` cannot make two generated or declared names collide"""
+    seen = set(["with", "setdefault", "marshaljson", "unmarshaljson", "string"])
+
+    def walk(d):
+        for m in d["members"]:
+            if m["k"] == "f":
+                ks = [_norm(m["name"])] + ([] if is_exported(m["name"]) else ["set" + _norm(m["name"])])
+            else:
+                ks = [_norm(m["decl"]["name"])]
+            for k in ks:
+                if k in seen:
+                    return False
+                seen.add(k)
+            if m["k"] == "e" and not walk(m["decl"]):
+                return False
+        return True
+    return walk(s)
 
 
 # ------------------------------------------------------------------------------------------------
